@@ -43,8 +43,44 @@ def gates(run):
                       "audited site %s no longer touches opts.%s (anchor moved: re-audit)" % (fid, field))
 
 
+ANCHOR_FNS = re.compile(r"matcher::(match_with_ruledef_map|match_with_ruledef|match_with_rule|begin_match_with_rule|match_with_expr|match_with_nested_ruledef|match_instr|match_all|error_on_no_matches)$|RuledefMap::|InstructionMatch::|InstructionArgument::")
+
+
+def private_helpers(f):
+    """local helper functions that only f calls (a step of f's body factored out): their calls count as f's own, at the
+    block of the call"""
+    prog = f.prog
+    out = []
+    for bi, t in f.calls():
+        r = t.get("resolved") or ""
+        if not t.get("resolved_local") or ANCHOR_FNS.search(r):
+            continue
+        h = prog.fn(r)
+        if h is None or h.kind != "Fn" and h.kind != "AssocFn" or len(h.blocks) > 120 or h.id == f.id:
+            continue
+        # same module
+        if h.id.rsplit("::", 1)[0] != f.id.rsplit("::", 1)[0]:
+            continue
+        callers = set()
+        for g in prog.real_fns():
+            for b2, t2 in g.calls():
+                if (t2.get("resolved") or "") == h.id:
+                    callers.add(g.raw.get("root") or g.id)
+        if callers <= {f.id}:
+            out.append((bi, h))
+    return out
+
+
 def callee_names(f):
-    return [(bi, (t.get("resolved") or t.get("callee") or "")) for bi, t in f.calls()]
+    out = [(bi, (t.get("resolved") or t.get("callee") or "")) for bi, t in f.calls()]
+    for bi, h in private_helpers(f):
+        for b2, t2 in h.calls():
+            out.append((bi, (t2.get("resolved") or t2.get("callee") or "")))
+        for g in f.prog.real_fns():
+            if g.kind == "Closure" and g.raw.get("root") == h.id:
+                for b2, t2 in g.calls():
+                    out.append((bi, (t2.get("resolved") or t2.get("callee") or "")))
+    return out
 
 
 def _prefix_index_locals(f):
@@ -474,8 +510,9 @@ def match_shape(run):
               "only matches with the maximum literal-part count are kept (max_by_key + retain)", "the literal-part filter (max_by_key + retain on exact_part_count) is gone: a rule spelling an operand literally would no longer take precedence")
     # the key of max_by_key and of retain is exact_part_count
     keyed = 0
+    fam_ids = {mi.id} | {h.id for _, h in private_helpers(mi)}
     for g in prog.real_fns():
-        if g.kind == "Closure" and g.raw.get("parent") == mi.id:
+        if g.kind == "Closure" and (g.raw.get("parent") in fam_ids or g.raw.get("root") in fam_ids):
             for bi, si, st in g.stmts():
                 if st["k"] == "assign":
                     for pl in rv_places(st["rv"]):
